@@ -16,7 +16,23 @@ def main():
         sys.exit(runner.run_check(a.prop, a.tier))
     elif a.cmd == 'replay':
         from msmv import runner, plans
-        w = json.load(open(a.file))
+        w = json.load(open(a.file)) if a.file.endswith('.json') else None
+        if w is None:
+            # a libFuzzer artifact of the PlantUML tokenizer target: re-run it
+            import subprocess, glob as _g
+            from msmv import build
+            bins = _g.glob(os.path.join(build.BUILD, 'puml_fuzz_' + build.tree_hash()[:16], 'puml_fuzz'))
+            if not bins:
+                print('build the target first: verif.py check C14'); sys.exit(2)
+            r = subprocess.run([bins[0], a.file], capture_output=True, text=True)
+            if r.returncode == 0:
+                print('replay passes on this tree'); sys.exit(0)
+            print('VIOLATION property=C14 replay=%s' % a.file); print(r.stderr[-800:]); sys.exit(1)
+        if w.get('kind') == 'pumlguard':
+            ok, detail = runner.replay_pumlguard(w['expr'])
+            if ok:
+                print('replay passes on this tree'); sys.exit(0)
+            print('VIOLATION property=C14 replay=%s' % a.file); print('  ' + detail); sys.exit(1)
         msgs, sig = runner.replay_failure(w['property'], plans.PLANS[w['property']], w['spec'], w['cfg'], w['case'], times=1)
         if msgs[0] is None:
             print('replay passes on this tree'); sys.exit(0)
